@@ -413,6 +413,32 @@ pub fn nullable(g: &mut G, c: &Ctx, depth: usize) -> Value {
     }
 }
 
+/// A schema that yields no *named* generated type (scalars, references,
+/// arrays/maps of those): used where typify derives the same type name for
+/// different inline schemas (known finding KF-001), so the generator stays
+/// clear of that region by construction.
+pub fn schema_unnamed(g: &mut G, c: &Ctx, depth: usize) -> Value {
+    let scalar = |g: &mut G| -> Value {
+        let w_ref = if c.refs().is_empty() { 0 } else { 3 };
+        match g.weighted(&[3, 3, if c.cfg.floats { 1 } else { 0 }, 2, w_ref, if c.cfg.str_formats { 1 } else { 0 }]) {
+            0 => json!({"type": "string"}),
+            1 => json!({"type": "integer"}),
+            2 => json!({"type": "number"}),
+            3 => json!({"type": "boolean"}),
+            4 => json!({"$ref": format!("{}{}", c.ref_prefix, g.pick(c.refs()))}),
+            _ => json!({"type": "string", "format": g.pick(STR_FORMATS)}),
+        }
+    };
+    if depth >= c.cfg.max_depth || g.chance(2, 3) {
+        return scalar(g);
+    }
+    match g.below(if c.cfg.enforced { 1 } else { 3 }) {
+        0 => json!({"type": "array", "items": scalar(g)}),
+        1 => json!({"type": "object", "additionalProperties": scalar(g)}),
+        _ => json!({"type": ["string", "null"]}),
+    }
+}
+
 fn tag_values(g: &mut G, n: usize) -> Vec<String> {
     let mut v: Vec<String> = vec![];
     let mut idents = std::collections::BTreeSet::new();
@@ -425,7 +451,7 @@ fn tag_values(g: &mut G, n: usize) -> Vec<String> {
     v
 }
 
-fn closed_object(g: &mut G, c: &Ctx, depth: usize, fixed: Vec<(String, Value)>, close: bool) -> Value {
+fn closed_object(g: &mut G, c: &Ctx, depth: usize, fixed: Vec<(String, Value)>, close: bool, unnamed: bool) -> Value {
     let n = g.below(3);
     let taken: Vec<String> = fixed.iter().map(|(k, _)| heck_snake(k)).collect();
     let names: Vec<String> = benign_props(g, n + 2)
@@ -440,7 +466,7 @@ fn closed_object(g: &mut G, c: &Ctx, depth: usize, fixed: Vec<(String, Value)>, 
         props.insert(k, v);
     }
     for name in names {
-        props.insert(name.clone(), schema(g, c, depth + 1));
+        props.insert(name.clone(), if unnamed { schema_unnamed(g, c, depth + 1) } else { schema(g, c, depth + 1) });
         if g.chance(1, 2) {
             required.push(name);
         }
@@ -459,7 +485,12 @@ fn closed_object(g: &mut G, c: &Ctx, depth: usize, fixed: Vec<(String, Value)>, 
 pub fn one_of(g: &mut G, c: &Ctx, depth: usize) -> Value {
     let n = 2 + g.below(2);
     let close = g.chance(1, 2);
-    let branches: Vec<Value> = match g.below(5) {
+    let shape = g.below(5);
+    let wrapper_shape = shape == 0 || shape == 2;
+    // key-disjoint branches stay closed: open single-property objects are read
+    // as externally tagged variants (known finding KF-003)
+    let close = close || shape == 4;
+    let branches: Vec<Value> = match shape {
         0 => {
             // externally tagged: a string enum for unit variants + single-member objects
             let tags = tag_values(g, n + 1);
@@ -476,7 +507,7 @@ pub fn one_of(g: &mut G, c: &Ctx, depth: usize) -> Value {
             let tags = tag_values(g, n);
             let tagname = g.pick(&["type", "kind", "tag", "t"]).to_string();
             tags.iter()
-                .map(|t| closed_object(g, c, depth, vec![(tagname.clone(), json!({"type": "string", "enum": [t]}))], close))
+                .map(|t| closed_object(g, c, depth, vec![(tagname.clone(), json!({"type": "string", "enum": [t]}))], close, true))
                 .collect()
         }
         2 => {
@@ -488,7 +519,11 @@ pub fn one_of(g: &mut G, c: &Ctx, depth: usize) -> Value {
                     if i == 0 && g.chance(1, 3) {
                         json!({"type": "object", "properties": {"tag": {"type": "string", "enum": [t]}}, "required": ["tag"], "additionalProperties": false})
                     } else {
-                        let content = schema(g, c, depth + 1);
+                        let content = if g.chance(1, 3) {
+                            { let cl = g.chance(1, 2); closed_object(g, c, depth + 1, vec![], cl, true) }
+                        } else {
+                            schema_unnamed(g, c, depth + 1)
+                        };
                         let mut o = json!({"type": "object", "properties": {"tag": {"type": "string", "enum": [t]}, "content": content}, "required": ["tag", "content"]});
                         if close {
                             o["additionalProperties"] = json!(false);
@@ -518,7 +553,7 @@ pub fn one_of(g: &mut G, c: &Ctx, depth: usize) -> Value {
             // required-key-disjoint closed objects
             let keys = benign_props(g, n);
             keys.iter()
-                .map(|k| { let l = leaf(g, c); closed_object(g, c, depth, vec![(k.clone(), l)], true) })
+                .map(|k| { let l = leaf(g, c); closed_object(g, c, depth, vec![(k.clone(), l)], true, false) })
                 .map(|mut o| {
                     // only the distinguishing key is required; others optional but closed
                     o["additionalProperties"] = json!(false);
@@ -527,7 +562,53 @@ pub fn one_of(g: &mut G, c: &Ctx, depth: usize) -> Value {
                 .collect()
         }
     };
+    let mut branches = branches;
+    // KF-002 (one closed variant closes every variant of the enum) is avoided
+    // by construction: struct-like variant payloads of one union are either
+    // all closed or all open.
+    let mut changed = 0;
+    for b in branches.iter_mut() {
+        if wrapper_shape {
+            // the {tag: payload} / {tag, content} wrapper objects keep the
+            // closed form serde/schemars give them; only payloads are aligned
+            if let Some(ps) = b.get_mut("properties").and_then(|p| p.as_object_mut()) {
+                for (_, p) in ps.iter_mut() {
+                    changed += uniform_closedness(p, close, 1);
+                }
+            }
+        } else {
+            changed += uniform_closedness(b, close, 0);
+        }
+    }
+    super::excluded("mixed-open-closed-variants", changed);
     json!({"oneOf": branches})
+}
+
+/// Set the closedness of the struct-like objects a union branch consists of
+/// (the branch itself and the payload one level below).
+fn uniform_closedness(v: &mut Value, close: bool, depth: usize) -> u64 {
+    let mut n = 0;
+    let Some(o) = v.as_object_mut() else { return 0 };
+    let structlike = o.get("type") == Some(&json!("object")) && o.get("properties").and_then(|p| p.as_object()).is_some();
+    if structlike {
+        let is_closed = o.get("additionalProperties") == Some(&json!(false));
+        if is_closed != close {
+            if close {
+                o.insert("additionalProperties".into(), json!(false));
+            } else {
+                o.remove("additionalProperties");
+            }
+            n += 1;
+        }
+        if depth < 1 {
+            if let Some(ps) = o.get_mut("properties").and_then(|p| p.as_object_mut()) {
+                for (_, p) in ps.iter_mut() {
+                    n += uniform_closedness(p, close, depth + 1);
+                }
+            }
+        }
+    }
+    n
 }
 
 pub fn all_of_objects(g: &mut G, c: &Ctx, depth: usize) -> Value {
@@ -684,6 +765,211 @@ pub fn break_alias_cycles(defs: &mut Map<String, Value>) {
             if seen.contains(&next) {
                 defs.insert(cur.clone(), json!({"type": "string"}));
                 super::excluded("pure-alias-cycle", 1);
+                break;
+            }
+            seen.push(next.clone());
+            cur = next;
+        }
+    }
+}
+
+// ---------------------------------------------------------------------------
+// Fragment membership (used to keep *shrunk* cases inside the domain a
+// property quantifies over; the generators are inside by construction).
+
+fn is_annotation(k: &str) -> bool {
+    matches!(k, "title" | "description" | "$schema" | "definitions" | "$comment")
+}
+
+fn type_list(o: &Map<String, Value>) -> Option<Vec<String>> {
+    match o.get("type") {
+        None => Some(vec![]),
+        Some(Value::String(s)) => Some(vec![s.clone()]),
+        Some(Value::Array(a)) => {
+            let v: Option<Vec<String>> = a.iter().map(|x| x.as_str().map(|s| s.to_string())).collect();
+            let v = v?;
+            // only the nullable form [T, "null"]
+            if v.len() == 2 && v.contains(&"null".to_string()) && v.iter().any(|t| t != "null") {
+                Some(v)
+            } else {
+                None
+            }
+        }
+        _ => None,
+    }
+}
+
+fn is_null_schema(v: &Value) -> bool {
+    v.as_object().map(|o| o.get("type") == Some(&json!("null")) && o.keys().all(|k| k == "type" || is_annotation(k))).unwrap_or(false)
+}
+
+/// Is `schema` inside the faithful fragment F (DESIGN §4.2)? `defs` are the
+/// names that may be referenced.
+pub fn in_faithful(schema: &Value, defs: &[String]) -> bool {
+    let o = match schema {
+        Value::Bool(b) => return *b,
+        Value::Object(o) => o,
+        _ => return false,
+    };
+    let keys: Vec<&str> = o.keys().map(|k| k.as_str()).filter(|k| !is_annotation(k)).collect();
+    if keys.is_empty() {
+        return true; // {}
+    }
+    if keys.contains(&"$ref") {
+        if keys.len() != 1 {
+            return false;
+        }
+        return o["$ref"].as_str().and_then(|r| r.strip_prefix("#/definitions/")).map(|n| defs.iter().any(|d| d == n)).unwrap_or(false);
+    }
+    for comb in ["oneOf", "anyOf", "allOf"] {
+        if keys.contains(&comb) {
+            if keys.len() != 1 {
+                return false;
+            }
+            let Some(bs) = o[comb].as_array() else { return false };
+            if bs.len() < 2 || !bs.iter().all(|b| in_faithful(b, defs)) {
+                return false;
+            }
+            if comb == "anyOf" && !(bs.len() == 2 && bs.iter().filter(|b| is_null_schema(b)).count() == 1) {
+                return false;
+            }
+            if comb == "allOf" && !bs.iter().all(|b| b.get("type") == Some(&json!("object"))) {
+                return false;
+            }
+            return true;
+        }
+    }
+    let Some(types) = type_list(o) else { return false };
+    let base: Vec<&str> = types.iter().map(|s| s.as_str()).filter(|t| *t != "null").collect();
+    if let Some(e) = o.get("enum") {
+        let Some(vals) = e.as_array() else { return false };
+        if vals.is_empty() {
+            return false;
+        }
+        let allowed = ["type", "enum"];
+        if !keys.iter().all(|k| allowed.contains(k)) {
+            return false;
+        }
+        return match base.as_slice() {
+            [] => types.is_empty() && vals.iter().all(|v| v.is_string()),
+            ["string"] => vals.iter().all(|v| v.is_string()),
+            ["integer"] => vals.iter().all(|v| v.is_i64() || v.is_u64()),
+            ["number"] => vals.iter().all(|v| v.is_number()),
+            ["boolean"] => vals.iter().all(|v| v.is_boolean()),
+            _ => false,
+        };
+    }
+    let t = match base.as_slice() {
+        [t] => *t,
+        [] if types == vec!["null".to_string()] => "null",
+        _ => return false, // validation keywords without an explicit type are outside F
+    };
+    let allowed: &[&str] = match t {
+        "string" => &["type", "format", "minLength", "maxLength", "pattern"],
+        "integer" => &["type", "format", "minimum"],
+        "number" => &["type", "format"],
+        "boolean" | "null" => &["type"],
+        "array" => &["type", "items", "additionalItems", "minItems", "maxItems", "uniqueItems"],
+        "object" => &["type", "properties", "required", "additionalProperties"],
+        _ => return false,
+    };
+    if !keys.iter().all(|k| allowed.contains(k)) {
+        return false;
+    }
+    match t {
+        "string" => {
+            if let Some(p) = o.get("pattern") {
+                if p.as_str().and_then(find_pattern).is_none() {
+                    return false;
+                }
+            }
+            if let (Some(a), Some(b)) = (o.get("minLength").and_then(|v| v.as_u64()), o.get("maxLength").and_then(|v| v.as_u64())) {
+                if a > b {
+                    return false;
+                }
+            }
+            o.get("format").map(|f| f.is_string()).unwrap_or(true)
+        }
+        "integer" => o.get("minimum").map(|m| m == &json!(0) || m == &json!(1)).unwrap_or(true) && o.get("format").map(|f| f.as_str().map(|f| INT_FORMATS.contains(&f)).unwrap_or(false)).unwrap_or(true),
+        "array" => match o.get("items") {
+            None => keys.iter().all(|k| *k == "type"),
+            Some(Value::Array(items)) => {
+                let n = items.len() as u64;
+                n >= 1
+                    && o.get("minItems").and_then(|v| v.as_u64()) == Some(n)
+                    && o.get("maxItems").and_then(|v| v.as_u64()) == Some(n)
+                    && o.get("uniqueItems").is_none()
+                    && o.get("additionalItems").map(|a| a == &json!(false)).unwrap_or(true)
+                    && items.iter().all(|i| in_faithful(i, defs))
+            }
+            Some(item) => {
+                if o.contains_key("additionalItems") {
+                    return false;
+                }
+                let mn = o.get("minItems").and_then(|v| v.as_u64());
+                let mx = o.get("maxItems").and_then(|v| v.as_u64());
+                // only exact lengths (fixed arrays) are represented
+                if mn != mx || mn == Some(0) {
+                    return false;
+                }
+                in_faithful(item, defs)
+            }
+        },
+        "object" => {
+            let empty = Map::new();
+            let props = match o.get("properties") {
+                None => &empty,
+                Some(Value::Object(p)) => p,
+                _ => return false,
+            };
+            if !props.values().all(|p| in_faithful(p, defs)) {
+                return false;
+            }
+            if let Some(r) = o.get("required") {
+                let Some(r) = r.as_array() else { return false };
+                if !r.iter().all(|n| n.as_str().map(|n| props.contains_key(n)).unwrap_or(false)) {
+                    return false;
+                }
+            }
+            match o.get("additionalProperties") {
+                None | Some(Value::Bool(_)) => true,
+                Some(ap) => in_faithful(ap, defs),
+            }
+        }
+        _ => true,
+    }
+}
+
+/// All definitions of a document are inside F.
+pub fn doc_in_faithful(doc: &Value) -> bool {
+    let names = def_names(doc);
+    let Some(defs) = doc.get("definitions").and_then(|d| d.as_object()) else { return false };
+    let mut tmp = defs.clone();
+    let before = tmp.clone();
+    break_alias_cycles_quiet(&mut tmp);
+    if tmp != before {
+        return false;
+    }
+    defs.values().all(|s| in_faithful(s, &names))
+}
+
+fn break_alias_cycles_quiet(defs: &mut Map<String, Value>) {
+    let target = |v: &Value| -> Option<String> {
+        let o = v.as_object()?;
+        if o.keys().all(|k| k == "$ref" || k == "description" || k == "title") {
+            o.get("$ref")?.as_str()?.strip_prefix("#/definitions/").map(|s| s.to_string())
+        } else {
+            None
+        }
+    };
+    let names: Vec<String> = defs.keys().cloned().collect();
+    for start in names {
+        let mut seen = vec![start.clone()];
+        let mut cur = start.clone();
+        loop {
+            let Some(next) = defs.get(&cur).and_then(|v| target(v)) else { break };
+            if seen.contains(&next) {
+                defs.insert(cur.clone(), json!({"type": "string"}));
                 break;
             }
             seen.push(next.clone());
